@@ -11,6 +11,7 @@ import (
 	"os"
 	"os/exec"
 	"path/filepath"
+	"reflect"
 	"runtime"
 	"sort"
 	"strings"
@@ -35,6 +36,8 @@ const (
 	addrF  = "0x00000000000000000000000000000000000000f1"
 	addrC1 = "0x00000000000000000000000000000000c0de0001"
 	addrC2 = "0x00000000000000000000000000000000c0de0002"
+	addrC3 = "0x00000000000000000000000000000000c0de0003" // uses opcodes introduced by proposal 022
+	addrC4 = "0x00000000000000000000000000000000c0de0004" // uses an opcode introduced by proposal 014
 	minerX = "0x00000000000000000000000000000000000000000000000000000000000aa001"
 )
 
@@ -55,8 +58,9 @@ type Input struct {
 }
 
 type Case struct {
-	Input   Input `json:"input"`
-	Choices []int `json:"choices"`
+	Input   Input  `json:"input"`
+	Choices []int  `json:"choices"`
+	Field   string `json:"field,omitempty"` // local-head part: the proposal moved to the block's height
 }
 
 var (
@@ -81,6 +85,23 @@ func revertCode() []byte {
 	return p.Revert(0, 0).Bytes()
 }
 
+// forkOpsCode: PUSH0, TSTORE/TLOAD, MCOPY (proposal 022), result stored and logged.
+func forkOpsCode() []byte {
+	p := asm.New()
+	p.Push(7).Op(vm.PUSH0).Op(vm.TSTORE)                   // transient[0] = 7
+	p.Op(vm.PUSH0).Op(vm.TLOAD).Op(vm.PUSH0).Op(vm.MSTORE) // mem[0:32] = transient[0]
+	p.Push(32).Op(vm.PUSH0).Push(32).Op(vm.MCOPY)          // mem[32:64] = mem[0:32]
+	p.Push(32).Op(vm.MLOAD).Push(2).Op(vm.SSTORE)          // slot2 = mem[32:64]
+	return p.Return(0, 64).Bytes()
+}
+
+// stakeOpsCode: GETSTAKE (custom opcode of proposal 014) of the caller, stored.
+func stakeOpsCode() []byte {
+	p := asm.New()
+	p.Op(vm.CALLER).Op(vm.GETSTAKE).Push(3).Op(vm.SSTORE)
+	return p.Return(0, 0).Bytes()
+}
+
 func setup() {
 	if err := node.Boot(node.ForksAllOn, true); err != nil {
 		panic(err)
@@ -93,6 +114,10 @@ func setup() {
 	st.SetNonce(common.HexToAddress(addrC1), 1)
 	st.SetCode(common.HexToAddress(addrC2), revertCode())
 	st.SetNonce(common.HexToAddress(addrC2), 1)
+	st.SetCode(common.HexToAddress(addrC3), forkOpsCode())
+	st.SetNonce(common.HexToAddress(addrC3), 1)
+	st.SetCode(common.HexToAddress(addrC4), stakeOpsCode())
+	st.SetNonce(common.HexToAddress(addrC4), 1)
 	root, err := st.Commit(true)
 	if err != nil {
 		panic(err)
@@ -175,6 +200,10 @@ func buildTx(s TxSpec, i int, st *account.AccountDB) *types.Transaction {
 		return node.ContractTx(types.TransactionTypeContract, src, addrC1, word(6), 3000000, "1", 0, stamp)
 	case "callrevert":
 		return node.ContractTx(types.TransactionTypeContract, src, addrC2, nil, 3000000, "0", 0, stamp)
+	case "callforkops":
+		return node.ContractTx(types.TransactionTypeContract, src, addrC3, nil, 3000000, "0", 0, stamp)
+	case "callstakeops":
+		return node.ContractTx(types.TransactionTypeContract, src, addrC4, nil, 3000000, "0", 0, stamp)
 	case "calloog":
 		return node.ContractTx(types.TransactionTypeContract, src, addrC1, word(9), 640000, "0", 0, stamp)
 	case "ethcall":
@@ -211,6 +240,12 @@ var goroutineDelta int
 // which proposals are active: 20 = every proposal of the dev table (P020 at 10, P023 at 12),
 // 2 = the table before P020/P023.
 var chainHeight uint64 = 20
+
+// headLag: the block under execution has height chainHeight+1; the node-local head the
+// fork predicates read is chainHeight-headLag+... : 0 = the parent is the head (normal
+// extension), -1 expressed as headAhead = the node already holds a block at the executed
+// block's height (a sibling is verified while the head is on the other branch).
+var headAhead uint64
 var debugSites bool
 
 // execute runs the input once under the decisions of ch and returns the observation
@@ -233,6 +268,8 @@ func execute(in Input, ch *fw.Chooser) (string, []string) {
 	if in.Seam == "verifyblock" {
 		return executeVerifyBlock(in, ch, pt, warm, devs)
 	}
+	common.SetBlockHeight(chainHeight + headAhead)
+	defer common.SetBlockHeight(chainHeight)
 	st := node.StateAt(baseRoot)
 	if warm == 1 {
 		// execute two unrelated blocks on other state objects first (process-local caches warm)
@@ -465,7 +502,7 @@ func inputs(thorough bool) []Input {
 	// lists of <= L transactions over the mixed alphabet
 	alpha := []TxSpec{
 		{Kind: "create", Src: "A"}, {Kind: "call", Src: "A"}, {Kind: "callvalue", Src: "B"}, {Kind: "callrevert", Src: "A"},
-		{Kind: "calloog", Src: "B"}, {Kind: "ethcall", Src: "B"}, {Kind: "apply", Src: "B"}, {Kind: "applypoor", Src: "A"},
+		{Kind: "calloog", Src: "B"}, {Kind: "ethcall", Src: "B"}, {Kind: "callforkops", Src: "B"}, {Kind: "callstakeops", Src: "B"}, {Kind: "apply", Src: "B"}, {Kind: "applypoor", Src: "A"},
 		{Kind: "add", Src: "B"}, {Kind: "refund", Src: "B"}, {Kind: "change", Src: "B"},
 		{Kind: "transfer", Src: "B", Targets: [][2]string{{"A", "5"}}},
 		{Kind: "transfer", Src: "A", Targets: [][2]string{{"B", "6"}, {"A", "7"}}},
@@ -540,12 +577,12 @@ func exploreInput(c *fw.Ctx, in Input, bound int, last bool) bool {
 			}
 			b0, _ := execute(in, fw.NewReplayChooser(nil))
 			if !same || b0 != base {
-				c.Violation("C01:harness-nondeterminism", "replay", "same choice sequence gave different observations: nondeterminism not owned by the harness", Case{in, ch.Choices()})
+				c.Violation("C01:harness-nondeterminism", "replay", "same choice sequence gave different observations: nondeterminism not owned by the harness", Case{Input: in, Choices: ch.Choices()})
 				return
 			}
 			sort.Strings(devs)
 			sig := "C01:diverge:" + strings.Join(uniq(devs), "+")
-			c.Violation(sig, "E1", fmt.Sprintf("input %s: execution with decisions %v differs from the default execution\n default: %s\n deviant: %s", mustJSON(in), devs, base, obs), Case{in, ch.Choices()})
+			c.Violation(sig, "E1", fmt.Sprintf("input %s: execution with decisions %v differs from the default execution\n default: %s\n deviant: %s", mustJSON(in), devs, base, obs), Case{Input: in, Choices: ch.Choices()})
 		}
 	}, func(ch *fw.Chooser) {}, func() bool { return c.Expired() })
 	c.Eval(st.Executions)
@@ -650,6 +687,14 @@ func run(c *fw.Ctx) {
 		}
 	}
 	restartedProcessPart(c, sample)
+	// local-head part over the single transactions and pairs of the mixed alphabet
+	var lh []Input
+	for _, in := range ins {
+		if in.Seam == "" && in.Name == "list" && len(in.Txs) <= 2 {
+			lh = append(lh, in)
+		}
+	}
+	localHeadPart(c, lh)
 }
 
 func replay(c *fw.Ctx, raw json.RawMessage) {
@@ -658,6 +703,20 @@ func replay(c *fw.Ctx, raw json.RawMessage) {
 		panic(err)
 	}
 	setup()
+	if cs.Field != "" {
+		fv := reflect.ValueOf(&common.LocalChainConfig).Elem().FieldByName(cs.Field)
+		fv.SetUint(50)
+		chainHeight = 49
+		a, _ := execute(cs.Input, fw.NewReplayChooser(nil))
+		headAhead = 1
+		b, _ := execute(cs.Input, fw.NewReplayChooser(nil))
+		headAhead = 0
+		fmt.Printf("head=parent : %s\nhead=sibling: %s\n", a, b)
+		if a != b {
+			c.Violation("C01:diverge:env:local-head-height:"+cs.Field, "replay", "executions differ", cs)
+		}
+		return
+	}
 	debugSites = true
 	base, _ := execute(cs.Input, fw.NewReplayChooser(nil))
 	dev, devs := execute(cs.Input, fw.NewReplayChooser(cs.Choices))
@@ -698,6 +757,59 @@ func childMain(args []string) {
 		os.Exit(0)
 	}
 	os.Exit(3)
+}
+
+// localHeadPart: the same block (same parent state, same header) executed by a node whose
+// head is the block's parent and by a node whose head already is at the block's height (it
+// verifies a sibling) must give the same outcome.  Fork predicates that read the node-local
+// head height instead of the header break this exactly at an activation height, so every
+// proposal of the fork table is moved, one at a time, to the height of the executed block.
+func localHeadPart(c *fw.Ctx, ins []Input) {
+	const hb = 50
+	saveH := chainHeight
+	defer func() { chainHeight = saveH; headAhead = 0; common.SetBlockHeight(saveH) }()
+	cfg := reflect.ValueOf(&common.LocalChainConfig).Elem()
+	var fields []string
+	for i := 0; i < cfg.NumField(); i++ {
+		n := cfg.Type().Field(i).Name
+		if strings.HasPrefix(n, "Proposal") && strings.HasSuffix(n, "Block") {
+			fields = append(fields, n)
+		}
+	}
+	sort.Strings(fields)
+	for fi, f := range fields {
+		if !c.Mine(int64(fi)) {
+			continue
+		}
+		fv := cfg.FieldByName(f)
+		old := fv.Uint()
+		fv.SetUint(hb)
+		chainHeight = hb - 1
+		diverged := 0
+		for _, in := range ins {
+			headAhead = 0
+			a, _ := execute(in, fw.NewReplayChooser(nil))
+			headAhead = 1
+			b, _ := execute(in, fw.NewReplayChooser(nil))
+			headAhead = 0
+			c.Eval(2)
+			if a != b {
+				// same input, same head: must reproduce
+				a2, _ := execute(in, fw.NewReplayChooser(nil))
+				if a2 != a {
+					c.Violation("C01:harness-nondeterminism", "local-head", "same execution differs on repetition: "+mustJSON(in), Case{Input: in})
+					continue
+				}
+				diverged++
+				c.Violation("C01:diverge:env:local-head-height:"+f, "local-head",
+					fmt.Sprintf("with %s = %d, block %d (%s) gives different results on a node whose head is its parent (%d) and on a node whose head is at height %d\n head=parent : %s\n head=sibling: %s",
+						f, hb, hb, mustJSON(in), hb-1, hb, a, b), Case{Input: in, Field: f})
+			}
+		}
+		fv.SetUint(old)
+		c.Count("local_head_comparisons", int64(len(ins)))
+		c.Outcome(fmt.Sprintf("local-head %s diverging_inputs=%d", f, diverged))
+	}
 }
 
 func restartedProcessPart(c *fw.Ctx, ins []Input) {
